@@ -52,6 +52,12 @@ pub struct Def { pub index_name: Str, pub table_name: Str, pub unique: bool, pub
 impl Def { #[verifier::external_body] pub fn clone(&self) -> (r: Def) ensures r == *self { unimplemented!() } }
 /// normalize_index_name
 pub uninterp spec fn nkey(name: Str) -> Seq<char>;
+// std::collections::BTreeSet<String> used as a scratch set of table names
+#[verifier::external_body] pub struct StrSet { s: u8 }
+impl StrSet {
+    #[verifier::external_body] pub fn new() -> (r: StrSet) { unimplemented!() }
+    #[verifier::external_body] pub fn insert(&mut self, x: Str) -> (r: bool) { unimplemented!() }
+}
 pub struct Database { pub o: u8 }
 impl Database {
     pub uninterp spec fn view(&self) -> State;
@@ -176,6 +182,9 @@ impl Database {
     // self.list_indexes().iter().filter_map(|n| self.get_index(n).map(|m| m.table_name.clone())).collect::<BTreeSet<_>>()
     #[verifier::external_body]
     fn indexed_tables(&self) -> (r: Vec<Str>) ensures r@ == self.indexed() { unimplemented!() }
+    // the same chain with a `.filter(..)` step before collect: SOME of the indexed tables (a filter only drops elements)
+    #[verifier::external_body]
+    fn indexed_tables_filtered(&self) -> (r: Vec<Str>) ensures forall|k: int| 0 <= k < r@.len() ==> self.indexed().contains(#[trigger] r@[k]) { unimplemented!() }
     // Database::rebuild_indexes (Operations::rebuild_indexes: unit I-resolve)
     #[verifier::external_body]
     fn rebuild_indexes(&mut self, t: &Str)
@@ -267,7 +276,10 @@ ITEMS = {
                   ('re', r'(?s)let kept = self\.get_index\(&index_name\)\.is_some_and\(\|current\| \{\s*definitions\.iter\(\)\.any\(\|d\| \{\s*d\.index_name == current\.index_name\s*&& d\.table_name == current\.table_name\s*&& d\.unique == current\.unique\s*&& d\.columns == current\.columns\s*\}\)\s*\}\);',
                    'let kept = self.is_kept(&index_name, &definitions);', 1),
                   ('re', r'for d in definitions \{', 'let mut di__: usize = 0; while di__ < definitions.len() { let d = definitions[di__].clone(); di__ = di__ + 1;', 1),
-                  ('re', r'let indexed_tables: std::collections::BTreeSet<String> = self\s*\.list_indexes\(\)\s*\.iter\(\)\s*\.filter_map\(\|index_name\| self\.get_index\(index_name\)\.map\(\|m\| m\.table_name\.clone\(\)\)\)\s*\.collect\(\);', 'let indexed_tables = self.indexed_tables();', 1),
+                  # the chain that lists the indexed tables; with an extra `.filter(closure)` step it lists SOME of them (idiom: recognised so that a rollback that skips tables fails the contract)
+                  ('refn', r'let indexed_tables: std::collections::BTreeSet<String> = self\s*\.list_indexes\(\)\s*\.iter\(\)\s*\.filter_map\(\|index_name\| self\.get_index\(index_name\)\.map\(\|m\| m\.table_name\.clone\(\)\)\)(\s*\.filter\((?:[^()]|\((?:[^()]|\([^()]*\))*\))*\))?\s*\.collect\(\);',
+                   lambda m: 'let indexed_tables = self.indexed_tables_filtered();' if m.group(1) else 'let indexed_tables = self.indexed_tables();', 1),
+                  ('re', r'let mut (\w+) = std::collections::BTreeSet::new\(\);', r'let mut \1: StrSet = StrSet::new();', None),
                   ('re', r'for table_name in indexed_tables \{', 'let mut ti__: usize = 0; while ti__ < indexed_tables.len() { let table_name = indexed_tables[ti__].clone(); ti__ = ti__ + 1;', 1)],
         loops={0: '''
             invariant li__ <= names__@.len(), self.reg_wf(), self.reg().submap_of(reg0__),
@@ -282,7 +294,7 @@ ITEMS = {
                 forall|q: int| 0 <= q < di__ ==> self.reg().dom().contains(nkey((#[trigger] definitions@[q]).index_name)),
             decreases definitions@.len() - di__,
 ''', 2: '''
-            invariant ti__ <= indexed_tables@.len(), indexed_tables@ == self.indexed(), self.reg() == regx__,
+            invariant ti__ <= indexed_tables@.len(), self.indexed() == idx0__, self.reg() == regx__,
                 forall|k: int| 0 <= k < ti__ ==> self.idx_fresh(#[trigger] indexed_tables@[k]),
             decreases indexed_tables@.len() - ti__,
 '''},
@@ -293,7 +305,7 @@ ITEMS = {
                     assert(nkey(names__@[k]) == x);
                 }
             }'''),
-                ('let indexed_tables = self.indexed_tables();', 'let ghost regx__ = self.reg();')],
+                ('re:let indexed_tables = self\\.indexed_tables', 'let ghost regx__ = self.reg(); let ghost idx0__ = self.indexed();')],
         contract='''
         requires old(self).reg_wf()
         ensures
@@ -327,6 +339,6 @@ TRUSTED = [
     'external_body require_table / tbl_remove_row / tbl_insert (R12): get_table_mut(&name).ok_or_else(..)? followed by table.remove_row / table.insert, as operations on the bag of the named table. ASSUMED (proved on the real Table functions in unit K-table): remove_row removes exactly one row equal to the STORED FORM of the given row, insert adds its stored form; tbl_position_of / tbl_update_row = the position idiom (literal equality) and Table::update_row. Earlier wording: remove_row removes exactly one equal row or fails with RowNotFound (cf. unit K-table); insert adds exactly the given row (it was in this table before: already normalised)',
     'NOT under contract: that INSERT / UPDATE / DELETE executors RECORD every change (Database::insert_row does; UpdateExecutor / DeleteExecutor / REPLACE / ON DUPLICATE KEY UPDATE / FK cascades do since the two C14 fixes, shown by SQL reproductions only)',
     'rollback_transaction: the registry of user-defined indexes as a map normalized name -> Def (IndexMetadata; Cols = Vec<IndexColumn> opaque) with external_body take_indexes_at_begin (`self.operations.take_index_definitions()`), list_indexes (exactly the registry keys), is_kept (the `get_index(..).is_some_and(|current| definitions.iter().any(|d| ..four field comparisons..))` statement, ASSUMED to decide "registered and its definition is one of those"), index_exists, drop_index, create_index (effects on the registry only; what an index is built from: unit I-resolve); nkey = normalize_index_name uninterpreted; precondition reg_wf (entries keyed by the normalized name of their definition). begin_transaction / commit_transaction: external_body tm_begin / tm_commit (the TransactionManager calls: unit X-sp), record_index_definitions (`list_indexes().iter().filter_map(|n| get_index(n).cloned()).collect()` in Operations: ASSUMED to list exactly the registry) and forget_index_definitions',
-    'external_body perform_rollback (TransactionManager::rollback_transaction: snapshot restore, not under contract here), indexed_tables (the list_indexes / get_index iterator chain), rebuild_indexes (unit I-resolve): by assumed contracts; undo_change\'s own calls to rebuild_indexes are dropped from the bag view (they do not change table contents)',
+    'external_body perform_rollback (TransactionManager::rollback_transaction: snapshot restore, not under contract here), indexed_tables (the list_indexes / get_index iterator chain; indexed_tables_filtered when the chain has an extra `.filter(..)` step: some of the indexed tables), StrSet (a scratch BTreeSet<String>: StrSet::new, insert - unconstrained), rebuild_indexes (unit I-resolve): by assumed contracts; undo_change\'s own calls to rebuild_indexes are dropped from the bag view (they do not change table contents)',
     'row ORDER inside a table after a rollback is not part of the contract (undo re-appends rows)',
 ]
